@@ -885,6 +885,21 @@ func c10WritesOf(f *ssa.Function) (out []*c10Write, nlocal int) {
 					}
 					continue
 				}
+				// methods of the sync/atomic value types (atomic.Pointer[T].Store, atomic.Int32.Add, …):
+				// the receiver is the written location
+				if sc := cc.StaticCallee(); sc != nil && sc.Signature.Recv() != nil && len(cc.Args) > 0 {
+					rt := sc.Signature.Recv().Type()
+					if p, ok := rt.(*types.Pointer); ok {
+						rt = p.Elem()
+					}
+					if nt, ok := rt.(*types.Named); ok && nt.Obj().Pkg() != nil && nt.Obj().Pkg().Path() == "sync/atomic" {
+						n := sc.Name()
+						if n == "Store" || n == "Add" || n == "Swap" || n == "CompareAndSwap" || n == "And" || n == "Or" {
+							out = append(out, &c10Write{Fn: f, Instr: in, Addr: cc.Args[0], How: "atomic"})
+						}
+						continue
+					}
+				}
 				if sc := cc.StaticCallee(); sc != nil && sc.Pkg != nil && sc.Pkg.Pkg.Path() == "sync/atomic" && len(cc.Args) > 0 {
 					n := sc.Name()
 					if strings.HasPrefix(n, "Store") || strings.HasPrefix(n, "Add") || strings.HasPrefix(n, "Swap") || strings.HasPrefix(n, "CompareAndSwap") || strings.HasPrefix(n, "And") || strings.HasPrefix(n, "Or") {
